@@ -266,17 +266,27 @@ R"(
         return ctx_manager->get(t).underlying_type;
     }
 
-    static std::string make_entry_cursor_constructor(
+    std::string make_entry_cursor_constructor(
         const sbe::level_members& members,
         const std::string_view class_name,
         const std::string_view block_length_type,
-        const std::string_view base_class)
+        const std::string_view base_class) const
     {
         // for empty group entries we generate a special cursor constructor to
         // advance cursor to `block_length` because there are no other fields
         // to do this. Default constructor is declared explicitly because old
         // compilers don't support inheriting it from the base class.
-        if(members.fields.empty() && members.groups.empty()
+        // Constant fields have no cursor-based accessors so an entry which has
+        // only them is empty in this sense.
+        const auto has_non_constant_fields = std::any_of(
+            std::begin(members.fields),
+            std::end(members.fields),
+            [this](const auto& f)
+            {
+                return ctx_manager->get(f).actual_presence
+                       != field_presence::constant;
+            });
+        if(!has_non_constant_fields && members.groups.empty()
            && members.data.empty())
         {
             return fmt::format(
